@@ -46,7 +46,7 @@ def build(tb):
     from cogent3.util.table import Table
 
     data = {h: [from_json_cell(c) for c in col] for h, col in zip(tb["header"], tb["cols"])}
-    return Table(header=list(tb["header"]), data=data, title=tb.get("title", ""))
+    return Table(header=list(tb["header"]), data=data, title=tb.get("title", ""), index_name=tb.get("index_name"))
 
 
 def mk_pred(p):
@@ -59,9 +59,37 @@ def mk_pred(p):
         return lambda r: r[p[1]] == p[2]
     if k == "eqcols":
         return lambda r: r[p[1]] == r[p[2]]
+    if k == "mulgt":
+        return lambda r: r[p[1]] * r[p[2]] > p[3]
+    if k == "sqgt":
+        return lambda r: r[p[1]] ** 2 > p[2]
+    if k == "addgt":
+        return lambda r: r[p[1]] + r[p[2]] > p[3]
     if k == "not":
         q = mk_pred(p[1])
         return lambda r: not q(r)
+    raise ValueError(k)
+
+
+def pred_text(p, n):
+    """the same predicate as a string callback over the column names n"""
+    k = p[0]
+    if k == "true":
+        return "True"
+    if k == "gt":
+        return f"{n[p[1]]} > {p[2]!r}"
+    if k == "eqc":
+        return f"{n[p[1]]} == {p[2]!r}"
+    if k == "eqcols":
+        return f"{n[p[1]]} == {n[p[2]]}"
+    if k == "mulgt":
+        return f"{n[p[1]]} * {n[p[2]]} > {p[3]!r}"
+    if k == "sqgt":
+        return f"{n[p[1]]} ** 2 > {p[2]!r}"
+    if k == "addgt":
+        return f"{n[p[1]]} + {n[p[2]]} > {p[3]!r}"
+    if k == "not":
+        return f"not ({pred_text(p[1], n)})"
     raise ValueError(k)
 
 
@@ -73,14 +101,52 @@ def mk_expr(e):
         return lambda r: r[e[1]] + r[e[2]]
     if k == "iseq":
         return lambda r: r[e[1]] == e[2]
+    if k == "mul":
+        return lambda r: r[e[1]] * r[e[2]]
+    if k == "sq":
+        return lambda r: r[e[1]] ** 2
     raise ValueError(k)
 
 
-def row_cb(f, ncols):
-    """Table passes the bare value when a single column is selected"""
+def expr_text(e, n):
+    k = e[0]
+    if k == "const":
+        return repr(e[1])
+    if k == "add":
+        return f"{n[e[1]]} + {n[e[2]]}"
+    if k == "iseq":
+        return f"{n[e[1]]} == {e[2]!r}"
+    if k == "mul":
+        return f"{n[e[1]]} * {n[e[2]]}"
+    if k == "sq":
+        return f"{n[e[1]]} ** 2"
+    raise ValueError(k)
+
+
+def names_ok(names):
+    import keyword
+
+    return all(isinstance(c, str) and c.isidentifier() and not keyword.iskeyword(c) for c in names)
+
+
+def row_cb(f, ncols, seen=None):
+    """Table passes the bare value when a single column is selected; `seen` collects the type of
+    every value the callable is handed"""
+    def note(vals):
+        if seen is not None:
+            seen.update(type(v).__name__ for v in vals)
+
     if ncols == 1:
-        return lambda r: f([r])
-    return lambda r: f(list(r))
+        def one(r):
+            note([r])
+            return f([r])
+        return one
+
+    def many(r):
+        r = list(r)
+        note(r)
+        return f(r)
+    return many
 
 
 def apply_op(tables, cur, o):
@@ -96,23 +162,26 @@ def apply_op(tables, cur, o):
     if k == "sorted":
         r = cur.sorted(columns=o["columns"], reverse=o["reverse"])
         return r, obs_table(r)
-    if k in ("filtered", "count"):
-        n = len(o["columns"]) if o["columns"] is not None else len(cur.header)
-        cb = row_cb(mk_pred(o["pred"]), n)
+    if k in ("filtered", "count", "with_new_column"):
+        names = list(o["columns"]) if o["columns"] is not None else list(cur.header)
+        n = len(names)
+        seen = set()
+        as_text = o.get("form") == "string" and bool(names) and names_ok(names)
+        if k == "with_new_column":
+            cb = expr_text(o["expr"], names) if as_text else row_cb(mk_expr(o["expr"]), n, seen)
+            r = cur.with_new_column(o["name"], cb, columns=o["columns"])
+            return r, obs_table(r) + [sorted(seen)]
+        cb = pred_text(o["pred"], names) if as_text else row_cb(mk_pred(o["pred"]), n, seen)
         if k == "filtered":
             r = cur.filtered(cb, columns=o["columns"])
-            return r, obs_table(r)
-        return cur, int(cur.count(cb, columns=o["columns"]))
+            return r, obs_table(r) + [sorted(seen)]
+        return cur, [int(cur.count(cb, columns=o["columns"])), sorted(seen)]
     if k == "filtered_by_column":
         c = from_json_cell(o["cell"])
         r = cur.filtered_by_column(lambda col: c in col.tolist())
         return r, obs_table(r)
     if k == "get_columns":
         r = cur.get_columns(o["columns"])
-        return r, obs_table(r)
-    if k == "with_new_column":
-        n = len(o["columns"]) if o["columns"] is not None else len(cur.header)
-        r = cur.with_new_column(o["name"], row_cb(mk_expr(o["expr"]), n), columns=o["columns"])
         return r, obs_table(r)
     if k == "appended":
         cur.title = o["self_title"]
@@ -172,6 +241,8 @@ def run_rt(case):
                         entry["records"] = [h] + rows
                     except Exception as e:  # noqa: BLE001
                         entry["records"] = {"exc": exc_code(e), "type": type(e).__name__, "msg": str(e)[:120]}
+                elif fmt.endswith(".bz2"):
+                    entry["files"] = sorted(os.listdir(tmp))
                 elif fmt.endswith(".gz"):
                     with gzip.open(path, "rt", newline="") as f:
                         entry["text"] = f.read()
